@@ -1247,7 +1247,7 @@ def gen_graph(rng, classes, mros, complete=False):
 
     def mk(c, depth):
         if c == BASE:
-            if nodes and rng.random() < 0.8:
+            if nodes and (depth >= 3 or rng.random() < 0.8):
                 n = rng.randrange(len(nodes))
                 return {"k": "config", "cls": nodes[n]["cls"], "id": n}
             c = rng.choice(cfg_ok)
@@ -1679,7 +1679,7 @@ def correspond(ctx):
     rng = ctx.rng
     probe_impl(ctx)
     run_case_list(ctx, [json.loads(json.dumps(c)) for c in CORPUS])
-    ntypes = ctx.scale(260, 6000)
+    ntypes = ctx.scale(260, 4000)
     batch = 130 if ctx.quick() else 400
     done = 0
     while done < ntypes:
@@ -1687,7 +1687,7 @@ def correspond(ctx):
         run_set_cases(ctx, gen_set_cases(ctx, rng, k))
         done += k
     run_decl_cases(ctx, rng, ctx.scale(40, 400))
-    nlibs, per = ctx.scale((14, 18), (220, 22))
+    nlibs, per = ctx.scale((14, 18), (150, 22))
     run_graphs(ctx, rng, nlibs, per)
     flush(ctx)
 
